@@ -10,6 +10,7 @@ import (
 	"regexp"
 	"sort"
 	"strings"
+	"sync"
 
 	"verif/internal/chain"
 	"verif/internal/ev"
@@ -390,6 +391,9 @@ func checkC34(r *ev.Run) {
 			raceBin = ""
 		}
 	}
+	var ordMu sync.Mutex
+	orders := map[string]bool{} // distinct interleavings seen: (completion order, served/refused pattern) of each burst
+	defer func() { r.Set("distinct_burst_interleavings_observed", len(orders)) }()
 	ev.ForEach(n+nRace, workers(), func(si int) {
 		if r.Only != "" && r.Only != "*" && r.Only != fmt.Sprint(si) {
 			return
@@ -534,6 +538,13 @@ func checkC34(r *ev.Run) {
 					r.Violation("handler-panicked", fmt.Sprintf("case %d: HandleRelay panicked during a burst: %s", si, oc.Err), wit(map[string]interface{}{"after_height": p.H, "burst_index": i}))
 				}
 			}
+			sig := make([]int64, 0, 2*len(o.Outcomes))
+			for _, oc := range o.Outcomes {
+				sig = append(sig, oc.Order, int64(oc.Code))
+			}
+			ordMu.Lock()
+			orders[ev.Digest(sig)] = true
+			ordMu.Unlock()
 			r.Count("bursts", 1)
 			r.Count("relays_in_bursts", int64(len(bs.Relays)))
 			r.Count("relays_served", int64(served))
